@@ -406,16 +406,16 @@ where
     let build = |all_erased: bool| {
         let mut tag = 0;
         (
-            build_f(&c.filter, all_erased),
+            build_fh(&c.filter, all_erased),
             if c.entry.is_macro() {
-                c.when.as_ref().map(|w| build_f(w, all_erased))
+                c.when.as_ref().map(|w| build_fh(w, all_erased))
             } else {
                 None
             },
-            build_e(&c.dest, all_erased, &mut tag),
+            build_eh(&c.dest, all_erased, &mut tag),
         )
     };
-    let run = |f: &F, when: Option<&F>, e: &E, erased_rt: bool| -> Vec<Rec> {
+    let run = |f: &FH, when: Option<&FH>, e: &EH, erased_rt: bool| -> Vec<Rec> {
         if erased_rt {
             run_erased(c, &ev, f, when, e, ctxt, &clock)
         } else {
